@@ -62,7 +62,7 @@ def parse_results(out):
 
 def verify(c_file, workdir, entry, enforce, replace=(), loop_contracts=False, nondet_volatile=False,
            includes=(), defines=(), solvers=('minisat',), timeout=120, unwind=None, extra_cbmc=(), trace=True,
-           object_bits=None):
+           object_bits=None, stop_on_fail=False):
     """returns CbmcResult.  Timeouts/tool errors -> undecided (never failed)."""
     r = CbmcResult()
     base = os.path.splitext(os.path.basename(c_file))[0]
@@ -132,6 +132,10 @@ def verify(c_file, workdir, entry, enforce, replace=(), loop_contracts=False, no
         if 'VERIFICATION SUCCESSFUL' in out and obl:
             r.status = 'ok'
             r.obligations = obl
+            r.solver = s
+            return r
+        if stop_on_fail and 'VERIFICATION FAILED' in out:
+            r.status = 'failed'
             r.solver = s
             return r
         if 'VERIFICATION FAILED' in out and obl:
